@@ -10,7 +10,7 @@ coordinate-list fibers), "size" (getSize = words of the layout), "walk" (depth-f
 interface, the parent's scan suspended while a child's scan runs, = the content).  The "scan" aspect also runs
 all fibers of a rank interleaved (every slice set up first, then nextInSlice round-robin).
 """
-import io, random, itertools, contextlib
+import io, copy, random, itertools, contextlib
 from harness import common as H
 
 PROP = "C20"
@@ -73,10 +73,11 @@ def _variants(tree, depth, rng, full):
 
 
 def _cases(tree, depth, rng, full, descs=None, aspects=ASPECTS, scale=1, hfmt=None, dflt=0, cum=None,
-           variants=None):
+           variants=None, reuse=False):
     """hfmt: format of the tensor's own ranks ("C"/"U" per rank, None = all "C"); dflt: the tensor's
     default (an integer like the leaves, divided by `scale` when built); cum: the codec's
-    cumulative_payloads flags (None = all True)"""
+    cumulative_payloads flags (None = all True); reuse: the Codec object has already encoded another
+    tensor (with its own get_output_dict()) before it encodes this one"""
     vs = _variants(tree, depth, rng, full)
     if variants is not None:
         vs = vs[:variants]
@@ -91,6 +92,8 @@ def _cases(tree, depth, rng, full, descs=None, aspects=ASPECTS, scale=1, hfmt=No
                     c["dflt"] = dflt
                 if cum is not None:
                     c["cum"] = cum
+                if reuse:
+                    c["reuse"] = True
                 yield c
 
 
@@ -116,6 +119,27 @@ def _wide_cases(rng, n):
                            "declared": declared, "ish": ish, "scale": 1, "aspect": asp}
 
 
+MASKSETS = [[40], [0, 64], [0, 33, 100], [31, 32, 64, 127, 128, 129], [5, 70, 140, 200], [127], [128], [0, 31, 63, 95, 96],
+            [32, 33, 34, 160]]
+
+
+def _mask_cases():
+    """deterministic: long runs of clear mask bits (>= one 32-bit word, across 128-bit lines) between set
+    bits, extents at / next to multiples of 32 and 128; depth 1 and as the lower rank of depth 2"""
+    for cs in MASKSETS:
+        leaf = [[c, 1 + (c % 3)] for c in cs]
+        for d, tree in ((1, leaf), (2, [[0, leaf], [3, [[cs[0], 2]]]])):
+            est = est_shape(tree, d)
+            for declared, tsh, ish in ((False, est, None), (True, [((s + 127) // 128) * 128 for s in est], None),
+                                       (False, est, [s + 33 for s in est])):
+                for desc in itertools.product("UCB", repeat=d):
+                    if "B" not in desc:
+                        continue
+                    for asp in ("decode", "size", "scan", "walk"):
+                        yield {"prop": PROP, "d": d, "t": tree, "fmts": "".join(desc), "tshape": tsh,
+                               "declared": declared, "ish": ish, "scale": 1, "aspect": asp}
+
+
 ATTRS = [("U", 0), ("C", 7), ("U", 7), ("U", 2)]
 
 
@@ -139,7 +163,7 @@ def gen(seed, tier):
         # the tensor's own rank in format "U" / a non-zero (int, float) default
         h, df = ATTRS[i % 4]
         yield from _cases(f, 1, rng, False, hfmt=h, dflt=df, scale=(4 if df == 2 else 1), variants=2,
-                          cum=[i % 2 == 0])
+                          cum=[i % 2 == 0], reuse=(i % 3 == 0))
     # depth 2: 2 x 2 coordinates
     l2 = leaf_fibers(2, [0, 5])
     A2 = [(h, df) for h in ("UC", "CU", "UU", "CC") for df in (0, 7, 2) if (h, df) != ("CC", 0)]
@@ -147,7 +171,7 @@ def gen(seed, tier):
         yield from _cases(t, 2, rng, full, scale=(1 if i % 2 == 0 else 4))
         h, df = A2[i % len(A2)]
         yield from _cases(t, 2, rng, False, hfmt=h, dflt=df, scale=(4 if df == 2 else 1), variants=2,
-                          cum=[i % 2 == 0, i % 3 == 0])
+                          cum=[i % 2 == 0, i % 3 == 0], reuse=(i % 2 == 1))
     # depth 3: 2 x 2 x 2 coordinates
     l1 = leaf_fibers(2, [7])
     mids = list(trees2(2, l1))
@@ -159,8 +183,9 @@ def gen(seed, tier):
             yield from _cases(t, 3, rng, False, scale=(1 if i % 4 == 0 else 4))
         else:
             yield from _cases(t, 3, rng, False, hfmt="".join(rng.choice("CU") for _ in range(3)),
-                              dflt=rng.choice([0, 7]), variants=2)
+                              dflt=rng.choice([0, 7]), variants=2, reuse=(i % 4 == 1))
     # multi-digit coordinates, extents around the mask word size
+    yield from _mask_cases()
     yield from _wide_cases(rng, 12 if tier == "quick" else 400)
     # random
     nrand = 220 if tier == "quick" else 10000
@@ -176,13 +201,23 @@ def gen(seed, tier):
             descs = [tuple(rng.choice("UCB") for _ in range(d)) for _ in range(6 if full else 4)]
         asp = ASPECTS if full or i % 2 == 0 else [rng.choice(ASPECTS)]
         for c in _cases(tree, d, rng, False, descs, asp, scale=scale, hfmt=hfmt, dflt=dflt,
-                        cum=[rng.random() < 0.5 for _ in range(d)], variants=None if i % 2 else 2):
+                        cum=[rng.random() < 0.5 for _ in range(d)], variants=None if i % 2 else 2,
+                        reuse=rng.random() < 0.4):
             yield c
 
 
 # ---------------------------------------------------------------------------------------
 # running the real code
 # ---------------------------------------------------------------------------------------
+
+def _other_tree(tree, depth):
+    """a different tensor of the same depth: leaves doubled (+1), one more element at the front/back"""
+    if depth == 1:
+        t = [[c, 2 * v + 1] for c, v in tree]
+        return t + [[(t[-1][0] + 2 if t else 1), 3]]
+    t = [[c, _other_tree(s, depth - 1)] for c, s in tree]
+    return t + [[(t[-1][0] + 1 if t else 0), _other_tree([], depth - 1)]]
+
 
 def _build(tree, depth, scale, dflt=0):
     """real Fiber objects; leaves (and the default) are ints (scale 1) or floats value/scale"""
@@ -348,15 +383,23 @@ def run(case):
     try:
         with contextlib.redirect_stdout(buf):
             codec = Codec(desc, list(case.get("cum") or [True] * d))
+            if case.get("reuse"):
+                # the codec object has been used before: another tensor (this one with every leaf
+                # doubled and an element added), its own output dict and fiber lists
+                other = _build(_other_tree(tree, d), d, scale, dflt)
+                ot0 = ft.Tensor.fromFiber(rank_ids=ids, fiber=other, **({"default": kw["default"]} if "default" in kw else {}))
+                codec.encode(-1, ot0.getRoot(), ids, codec.get_output_dict(ids), [[] for _ in range(d + 1)])
             out = codec.get_output_dict(ids)
             ot = [[] for _ in range(d + 1)]
             codec.encode(-1, t.getRoot(), ids, out, ot, shape=case["ish"])
             if asp == "decode":
                 # state left behind: the tensor is only read, and the codec object can be used again
                 side["tensor_unchanged"] = H.snapshot(t.getRoot()) == before
+                first = copy.deepcopy(out)
                 out2 = codec.get_output_dict(ids)
                 codec.encode(-1, t.getRoot(), ids, out2, [[] for _ in range(d + 1)], shape=case["ish"])
-                side["second_encode_same"] = out2 == out
+                side["second_encode_same"] = out2 == first
+                side["first_arrays_untouched_by_second_encode"] = out == first and out2 is not out
     except Exception as e:
         case["impl"] = {"error": H.err_class(e)}
         case["implerr"] = H.err_class(e)
